@@ -47,7 +47,7 @@ def cases(tier, seed):
     for i, c_ in enumerate(out):
         if i % 4 == 3:
             c_["reuse"] = True
-        elif i % 4 == 1 and "cfg" in c_ and c_.get("kind", "routing") == "routing" and c_["cfg"]["env"] in TORCHRL_ENVS:
+        elif i % 4 == 1 and "cfg" in c_ and (c_.get("kind", "routing") != "routing" or c_["cfg"]["env"] in TORCHRL_ENVS):
             c_["torchrl"] = True  # TorchRL-mode env driven with look-ahead probes
     return out
 
